@@ -118,7 +118,17 @@ def run(case, ctx):
         ("Data.get(*parts)", lambda: D.get(*parts)),
         ("bound(raw)", lambda: DP.DataPath(*parts, source_data=doc).get_data()),
         ("bound(Data)", lambda: DP.DataPath(*parts, source_data=D).get_data()),
+        # the same document reaching a bound path a second time, in the other form
+        ("Data.get(bound(raw))", lambda: D.get(DP.DataPath(*parts, source_data=doc))),
+        ("bound(raw).get_data(Data)", lambda: DP.DataPath(*parts, source_data=doc).get_data(D)),
+        ("bound(Data).get_data(raw)", lambda: DP.DataPath(*parts, source_data=D).get_data(doc)),
+        ("bound(raw).get_data(raw)", lambda: DP.DataPath(*parts, source_data=doc).get_data(doc)),
     ]
+    if pterm["parts"] and all(q["p"] == "prim" for q in pterm["parts"]):
+        prims = [q["v"] for q in pterm["parts"]]
+        entries.append(("Data.get(*primitives)", lambda: D.get(*prims)))
+        entries.append(("DataPath(*primitives)", lambda: DP.DataPath(*prims).get_data(doc)))
+        entries.append(("Data.get(*primitives, return_paths)", lambda: (lambda r: r if r is None else r[0])(D.get(*prims, return_paths=True))))
     # the same path written as part specifications (a random legal spelling of each part)
     import random, zlib
     sp = build.Spelling(random.Random(zlib.crc32(repr(pterm).encode())))
